@@ -75,6 +75,7 @@ def _grid():
                                     cells.append(dict(base, kind='hyptrap', insn=w, **s, **h))
                             for tj in (0, 1):
                                 cells.append(dict(base, kind='hyptrap', insn='bxj', TJDBX=tj, **s))      # BXJ trapped by HSTR.TJDBX
+                                cells.append(dict(base, kind='hyptrap', insn='cp15', TN=tj, **s))        # MCR/MRC/MCRR/MRRC p15 trapped by HSTR.T<CRn>
                     cells.append(dict(base, kind='reset'))
     # state constraints of the architecture
     out = []
@@ -125,6 +126,12 @@ def _fault_word(kind, thumb, rng, cell=None):
         if (cell or {}).get('insn') == 'bxj':
             rm = rng.randrange(0, 13)
             return (0xF3C08F00 | rm << 16) if thumb else (0xE12FFF20 | rm)
+        if (cell or {}).get('insn') == 'cp15':
+            crn, rt = cell['_crn'], rng.randrange(0, 13)
+            if cell['_two']:
+                rt2 = (rt + rng.randrange(1, 12)) % 13             # MRRC with Rt == Rt2 is UNPREDICTABLE
+                return 0xEC400F00 | rng.getrandbits(1) << 20 | rt2 << 16 | rt << 12 | rng.getrandbits(4) << 4 | crn       # MCRR/MRRC p15, .., c<crn>
+            return 0xEE000F10 | rng.getrandbits(3) << 21 | rng.getrandbits(1) << 20 | crn << 16 | rt << 12 | rng.getrandbits(3) << 5 | rng.getrandbits(4)
         n = 3 if (cell or {}).get('insn', 'wfi') == 'wfi' else 2
         return th(T.hint(n)) if thumb else A.hint(n)
     if kind == 'dabt':
@@ -183,8 +190,12 @@ def gen_cell(cell, rng, rep):
     sys = {'sctlr': sct, 'scr': scr if sec else 0, 'hcr': hcr if virt else 0,
            'hsctlr': rng.getrandbits(1) << 30 | rng.getrandbits(1) << 25 | (1 if kind == 'dabt' else rng.getrandbits(1)) << 1,
            'vbar': rng.getrandbits(27) << 5, 'mvbar': rng.getrandbits(27) << 5, 'hvbar': rng.getrandbits(27) << 5}
+    if cell.get('insn') == 'cp15':
+        cell = dict(cell, _crn=rng.choice([0, 1, 2, 3, 5, 6, 7, 8, 9, 10, 11, 12, 13, 15]), _two=int(rng.random() < 0.3))
     if virt:
         sys['hstr'] = cell.get('TJDBX', rng.getrandbits(1)) << 17
+        if cell.get('insn') == 'cp15':
+            sys['hstr'] = (rng.getrandbits(16) & ~(1 << cell['_crn'])) | cell['TN'] << cell['_crn']
     if pmsa:
         regs = [(0, 0, 0)] * 12
         regs[0] = (1 | 31 << 1, 0, 3 << 8)                       # 4 GiB, full access
@@ -253,6 +264,11 @@ def expected_kind(kind, arm, cfg, cell=None):
         if (r.scr.value >> 7) & 1:
             return 'und' if not secure else None       # SCD in Secure state: UNPREDICTABLE
         return 'smc'
+    if kind == 'hyptrap' and (cell or {}).get('insn') == 'cp15':
+        # CP15 access from a Non-secure PL1 mode with HSTR.T<CRn> set: Hyp trap; otherwise the (not implemented) CP15 access itself
+        if m == 0x10:
+            return None
+        return 'hyptrap' if (virt and not secure and m != 0x1a and (r.hstr.value >> cell['_crn']) & 1) else 'none'
     if kind == 'hyptrap' and (cell or {}).get('insn') == 'bxj':
         # BXJ: trapped to Hyp mode from Non-secure PL1/PL0 when HSTR.TJDBX is set, whatever JMCR.JE says; otherwise it branches
         return 'hyptrap' if (virt and not secure and m != 0x1a and (r.hstr.value >> 17) & 1) else 'none'
@@ -356,7 +372,9 @@ class Injector:
         got = [k for tt, k in self.mon.taken if tt == t and k != 'reset']
         if want == 'reset':
             return
-        if rec['nie'] or rec['exc']:
+        cp15 = (self.case.get('cell') or {}).get('insn') == 'cp15' and self.inject.get(t) == 'hyptrap'
+        if (rec['nie'] or rec['exc']) and not (cp15 and rec['nie'] and not rec['exc']):
+            # (a CP15 access always ends in the declared-unimplemented CP15 hook, but only AFTER the trap decision: that decision is still checked)
             return
         if want == 'none':
             if got:
@@ -366,7 +384,8 @@ class Injector:
             # exception class of the syndrome written for an entry to Hyp mode (only HSR.EC is compared; ISS/IL are not)
             kind0 = self.inject.get(t)
             ec = (b.cores[0].arm.registers.hsr.value >> 26) & 0x3F
-            want_ec = {'hyptrap': 0x13 if kind0 == 'smc' else (0x0A if (self.case.get('cell') or {}).get('insn') == 'bxj' else 0x01), 'svc': 0x11}[want]
+            cell_ = self.case.get('cell') or {}
+            want_ec = {'hyptrap': 0x13 if kind0 == 'smc' else {'bxj': 0x0A, 'cp15': 0x04 if cell_.get('_two') else 0x03}.get(cell_.get('insn'), 0x01), 'svc': 0x11}[want]
             if kind0 in ('hyptrap', 'smc', 'svc') and ec != want_ec:
                 b.violate('entry_hsr', want, 'hsr_ec', 'entry to Hyp mode for %s: HSR.EC = %#x, expected %#x' % (kind0, ec, want_ec))
             b.cover.add('hsr|%s|%x' % (kind0, ec))
